@@ -197,9 +197,11 @@ func corpus() []*Case {
 	// transaction signed for another chain id that pays more than the cheapest pooled one
 	{
 		cfg := wide
-		cfg.GlobalSlots, cfg.GlobalQueue = 1, 1
+		// (added in two calls, so that the queue never holds more than GlobalQueue transactions,
+		// not even before the promotion run: an idle timer run in between would truncate it)
+		cfg.GlobalSlots, cfg.GlobalQueue = 1, 3
 		b := newCB(cfg, st(1, 0, rich, 0, rich))
-		b.add(false, tx(1, 0, 2), tx(1, 2, 3))
+		b.add(false, tx(1, 0, 2)).add(false, tx(1, 2, 3), tx(1, 3, 3), tx(1, 4, 3))
 		b.c.Ops = append(b.c.Ops, OpJS{K: "bad", Bad: "chainid"})
 		b.c.Kind = "limit" // the pool-full branch is outside the model
 		out = append(out, b.done("full pool, refused transaction of another chain id evicts"))
